@@ -69,6 +69,8 @@ def instances(tier, seed):
     # condition; with a free angle z3 answers unknown on the sign clauses, so those are asserted in an instance without a free angle
     out.append(dict(name="hs_ellipsoid:tracker/lin", args=["hs_ellipsoid", "tracker"], paths=4 if tier == "quick" else 16, pair="hs_ellipsoid",
                     api="tracker", tier=tier, angle=None))
+    for i in out:
+        i.setdefault("twin_timeout_ms", 10000)     # twins are model searches; an undecided twin is only a lost vacuity witness
     return out
 
 
